@@ -646,7 +646,15 @@ func c17Exec(x *Ctx) {
 					compare(what)
 					x.Probe("truncate")
 				} else {
-					m := uint32(r.Pick(0o600, 0o644, 0o755, 0o700, 0o444))
+					m := uint32(r.Pick(0o600, 0o644, 0o755, 0o700, 0o444, 0o777, 0o777, int(fi.Mode().Perm()), int(fi.Mode().Perm())))
+					if fi.Mode().IsRegular() && r.Pct(30) {
+						// the file has a set-id or sticky bit: chmod(2) with plain permission bits clears it
+						sp := []os.FileMode{os.ModeSetuid, os.ModeSetgid, os.ModeSticky}[r.Intn(3)]
+						os.Chmod(filepath.Join(A, tgt), fi.Mode().Perm()|sp)
+						os.Chmod(filepath.Join(B, tgt), fi.Mode().Perm()|sp)
+						before = snapshotTree(A, false)
+						x.Probe("chmod-of-a-file-with-special-bits")
+					}
 					keepDir := uint32(0)
 					if fi.IsDir() {
 						keepDir = 0x80000000
